@@ -28,6 +28,8 @@ type psVector struct {
 	Status string        `json:"status"`
 	Errs   []string      `json:"errs"`
 	NOps   *int          `json:"nops"`
+	Text   *string       `json:"-"` // pre-rendered input (set by other replayers)
+	Label  string        `json:"-"`
 	psbind.Final
 }
 
@@ -74,6 +76,9 @@ func loadBase(path string) (*psBase, error) {
 
 func stimulusText(v *psVector) string {
 	var sb strings.Builder
+	if v.Label != "" {
+		return v.Label
+	}
 	if len(v.Init) > 0 {
 		sb.WriteString("stack[")
 		for i, x := range v.Init {
@@ -186,7 +191,9 @@ func checkVector(base *psBase, v *psVector, line int) *disagreement {
 		b.Intp.Stack = append(b.Intp.Stack, o)
 	}
 	var calls []string
-	if v.Op != "" && len(v.Prog) == 0 {
+	if v.Text != nil {
+		calls = []string{*v.Text}
+	} else if v.Op != "" && len(v.Prog) == 0 {
 		calls = []string{v.Op}
 	} else {
 		calls, err = psbind.Calls(v.Prog)
